@@ -223,7 +223,7 @@ def run_c15(ctx):
     hsb = build_harness(ctx, bench=True)
     cfg = ctx.path("hostile.cfg")
     open(cfg, "w").write("")
-    r = model_job(ctx, "Hostile.tla class matrix", "Hostile.tla", cfg, True, "20 cells", workers=1, timeout=120)
+    r = model_job(ctx, "Hostile.tla class matrix", "Hostile.tla", cfg, True, "21 cells", workers=1, timeout=120)
     if r["violated"]:
         raise ToolError("Hostile.tla: %s" % r["violated"])
     for build, binary in (("default", hs), ("benchmark", hsb)):
